@@ -209,6 +209,9 @@ def gen_one(rng, i, tier):
     inp["nb"] = rng.choice([1, 2, 3, 3, 4, 5, 6, 8, 12])
     inp["method"] = rng.choice(METHODS)
     inp["alpha"] = rng.choice([0.05, 0.1, 0.2, 0.5, round(rng.uniform(0.01, 0.9), 3)])
+    # vector-valued alpha (documented for the quantile method): one interval per level, in the order given
+    inp["alpha_vec"] = ([round(rng.uniform(0.01, 0.9), 3) for _ in range(rng.randint(1, 3))]
+                        if rng.random() < 0.35 else None)
     inp["seed"] = rng.randint(0, 2**31 - 1)
     return inp
 
@@ -620,6 +623,27 @@ def build(inp) -> Case:
                 if not (_same(lo, est) and _same(hi, est)):
                     fail("identity", f"identity sampler, method {meth}: interval {_short(cc)} does not collapse onto the "
                          f"estimate {_short(est, 6)}", f"boot/identity/{meth}")
+        if inp.get("alpha_vec") and method == "quantile" and ci is not None:
+            # bootstrap_ci with an array of levels = the scalar calls, level by level (deterministic sampler: same rows)
+            al = [alpha] + list(inp["alpha_vec"])
+            cv = common.call(obj.bootstrap_ci, metric_arg, np.array(al), config(_Counting(obj, stype), "quantile"), **kwargs)
+            evals[0] += len(al)
+            tags.append("alpha-array")
+            if cv[0] == "exc":
+                fail("ci-raises", f"bootstrap_ci with alpha={al} raised {cv[1]}: {cv[2]}", f"boot/ci/alpha-array/raises/{cv[1]}")
+            elif np.asarray(cv[1]).shape != mshape + (len(al), 2):
+                fail("ci-shape", f"bootstrap_ci with {len(al)} levels: shape {np.asarray(cv[1]).shape}, expected "
+                     f"{mshape + (len(al), 2)}", "boot/ci/alpha-array/shape")
+            else:
+                arr = np.asarray(cv[1], dtype=float)
+                for k_, a_k in enumerate(al):
+                    ck = common.call(obj.bootstrap_ci, metric_arg, a_k, config(_Counting(obj, stype), "quantile"), **kwargs)
+                    if ck[0] == "ok" and not np.allclose(arr[..., k_, :], np.asarray(ck[1], dtype=float), rtol=1e-9,
+                                                         atol=1e-12, equal_nan=True):
+                        fail("ci-formula", f"bootstrap_ci with alpha={al}: the interval at position {k_} is "
+                             f"{_short(arr[..., k_, :])} but the scalar call with alpha={a_k} gives {_short(ck[1])}",
+                             "boot/ci/alpha-array/slice")
+                        break
         if identity:
             for j in range(nb):
                 if not _same(mat[j], est):
